@@ -461,3 +461,6 @@ func (w *World) Settle() {
 
 // SeqInst is the instance-id counter (part of the canonical state: it names future instances).
 func (w *World) SeqInst() int { return w.seqInst }
+
+// CurrentGroup is the node group being processed right now ("" outside a group).
+func (w *World) CurrentGroup() string { return w.group() }
